@@ -66,12 +66,20 @@ def all_ops():
     ops += [['lag', n] for n in range(0, 5)]
     ops += [['pad_start', n, v] for n in range(0, 4) for v in (None, 9)]
     ops += [['pad_end', n, v] for n in range(0, 4) for v in (None, 9)]
+    # an explicit padding VALUE that is itself a sequence, of length n or not (a record, a point): it is one item
+    ops += [[k, n, ['seq', kind, m]] for k in ('pad_start', 'pad_end') for n in (1, 2) for kind in ('tuple', 'list') for m in (2, 3)]
     ops += [['start_with', list(v), kind] for v in ((), (7,), (7, 8)) for kind in ('list', 'tuple', 'deque')]
     ops += [['batch', n] for n in range(1, 7)]
     return ops
 
 
 OPS = all_ops()
+
+
+def padv(v):
+    if isinstance(v, list) and v and v[0] == 'seq':
+        return (tuple if v[1] == 'tuple' else list)(range(70, 70 + v[2]))
+    return v
 
 
 def build(op):
@@ -89,9 +97,9 @@ def build(op):
     if k == 'lag':
         return rs.data.lag(op[1])
     if k == 'pad_start':
-        return rs.data.pad_start(op[1], op[2])
+        return rs.data.pad_start(op[1], padv(op[2]))
     if k == 'pad_end':
-        return rs.data.pad_end(op[1], op[2])
+        return rs.data.pad_end(op[1], padv(op[2]))
     if k == 'start_with':
         # the padding is 'some items': a list, a tuple (the documented example) or any other iterable
         kind = op[2] if len(op) > 2 else 'list'
@@ -122,9 +130,9 @@ def judge(op, xs, got, ctx):
     elif k == 'lag':
         exp = [(xs[max(0, i - op[1])], xs[i]) for i in range(len(xs))]
     elif k == 'pad_start':
-        exp = ([op[2] if op[2] is not None else xs[0]] * op[1] + xs) if xs else []
+        exp = ([padv(op[2]) if op[2] is not None else xs[0]] * op[1] + xs) if xs else []
     elif k == 'pad_end':
-        exp = (xs + [op[2] if op[2] is not None else xs[-1]] * op[1]) if xs else []
+        exp = (xs + [padv(op[2]) if op[2] is not None else xs[-1]] * op[1]) if xs else []
     elif k == 'start_with':
         exp = (list(op[1]) + xs) if xs else []
     elif k == 'batch':
@@ -157,9 +165,19 @@ def check_plain_one(op, xs):
     ctx = {'op': op, 'mode': 'plain'}
     if op[0] in ('first', 'last') and not xs:
         raise Reject()
-    r = drive.plain(xs, [build(op)])
+    the_op = build(op)
+    r = drive.plain(xs, [the_op])
     H.require_clean(r, 'plain ' + op[0], input=xs, **ctx)
     judge(op, xs, r.items, dict(ctx))
+    # the same operator OBJECT applied to other plain sources afterwards (a new observable each time): after a complete run,
+    # and after a run whose subscriber left in the middle
+    import rx.operators as rxops
+    drive.collect(rx.from_(list(xs)).pipe(the_op, rxops.take(1)))
+    ys = xs[1:] + xs[:1]
+    if not (op[0] in ('first', 'last') and not ys):
+        r2 = drive.plain(ys, [the_op])
+        H.require_clean(r2, 'plain %s, operator object applied to a second source' % op[0], input=ys, **ctx)
+        judge(op, ys, r2.items, dict(ctx, second_use=True))
 
 
 def check_store_one(op, xs):
@@ -302,8 +320,13 @@ def check_sort(case):
 
     def kf(i):
         return -99 if i is None else kf0(i)
-    r = drive.plain(items, [rs.data.sort(key=kf, reverse=case['reverse'])])
+    sort_op = rs.data.sort(key=kf, reverse=case['reverse'])
+    r = drive.plain(items, [sort_op])
     H.require_clean(r, 'sort', **case)
+    r_again = drive.plain(items, [sort_op])          # the same operator object applied to a second source
+    H.require_clean(r_again, 'sort (operator object applied to a second source)', **case)
+    if r_again.items != r.items:
+        raise Violation('sort: the operator object applied to a second source gives another result', first=r.items, second=r_again.items, **case)
     got = r.items
     if sorted([g for g in got if g is not None], key=lambda i: i[1]) != [i for i in items if i is not None] \
             or sum(1 for g in got if g is None) != sum(1 for i in items if i is None):
